@@ -41,6 +41,23 @@ func (o *OnOff) UnmarshalFlag(v string) error {
 	return nil
 }
 
+// PLevel is an integer-kinded type whose Marshaler and Unmarshaler both have pointer receivers (the usual way to write them).
+type PLevel int
+
+func (l *PLevel) MarshalFlag() (string, error) { return []string{"low", "high"}[((int(*l)%2)+2)%2], nil }
+
+func (l *PLevel) UnmarshalFlag(s string) error {
+	switch s {
+	case "low":
+		*l = 0
+	case "high":
+		*l = 1
+	default:
+		return fmt.Errorf("plevel: %q is neither low nor high", s)
+	}
+	return nil
+}
+
 // Sink is a struct-kinded type whose Unmarshaler has a value receiver: it cannot change itself, it hands every argument
 // on to the slice it points to (if any).
 type Sink struct{ Log *[]string }
@@ -227,6 +244,9 @@ var (
 	TOnOff    = &Type{"OnOff", reflect.TypeOf(OnOff(false))}
 	TCSV      = &Type{"CSV", reflect.TypeOf(CSV{})}
 	TSink     = &Type{"Sink", reflect.TypeOf(Sink{})}
+	TPLevel   = &Type{"PLevel", reflect.TypeOf(PLevel(0))}
+	TPLevels  = &Type{"[]PLevel", reflect.TypeOf([]PLevel{})}
+	TOnOffs   = &Type{"[]OnOff", reflect.TypeOf([]OnOff{})}
 	TMapLS    = &Type{"map[Level]string", reflect.TypeOf(map[Level]string{})}
 	TMapSL    = &Type{"map[string]Level", reflect.TypeOf(map[string]Level{})}
 	TGrade    = &Type{"Grade", reflect.TypeOf(Grade(0))}
@@ -255,6 +275,9 @@ func (t *Type) IsFlag() bool {
 		switch rt.Kind() {
 		case reflect.Slice, reflect.Ptr:
 			rt = rt.Elem()
+			if reflect.PtrTo(rt).Implements(unmarshalerType) || rt.Implements(unmarshalerType) {
+				return false // a slice of / pointer to a type that reads its own argument
+			}
 		case reflect.Bool:
 			return true
 		case reflect.Func:
